@@ -10,6 +10,8 @@ import (
 
 	sdk "github.com/cosmos/cosmos-sdk/types"
 
+	abci "github.com/cometbft/cometbft/abci/types"
+	tmprotocrypto "github.com/cometbft/cometbft/proto/tendermint/crypto"
 	transfertypes "github.com/cosmos/ibc-go/v10/modules/apps/transfer/types"
 	channeltypes "github.com/cosmos/ibc-go/v10/modules/core/04-channel/types"
 
@@ -175,3 +177,48 @@ func VerifC16ConsumerSplit() {
 	vh.Assert(vh.Implies(due, lt.Height == e.ctx.BlockHeight()), "C16.consumer.transmission-period-restarts")
 	vh.Assert(vh.Implies(!due, lt.Height == last), "C16.consumer.no-transmission-before-period-elapsed")
 }
+
+// ---- exported: a consumer with an arbitrary stored cross-chain validator set and
+// arbitrary accumulated pending changes, for the end-block harness in package consumer
+
+type VerifConsumerSetEnv struct {
+	Ctx     sdk.Context
+	K       *Keeper
+	In      []bool
+	Power   []int64
+	Pending []abci.ValidatorUpdate
+	NKeys   int
+}
+
+func VerifNewConsumerSetEnv(k int) *VerifConsumerSetEnv {
+	e := newVCEnv()
+	e.k.SetProviderChannel(e.ctx, "channel-0")
+	p := e.k.GetConsumerParams(e.ctx)
+	p.RewardDenoms = []string{vcDenom}
+	p.DistributionTransmissionChannel = "channel-7"
+	p.ProviderFeePoolAddrStr = "cosmos1provider"
+	e.k.SetParams(e.ctx, p)
+	bank := &vcBank{bal: map[byte]math.Int{1: math.ZeroInt(), 2: math.ZeroInt(), 3: math.ZeroInt()}}
+	e.k.bankKeeper, e.k.authKeeper, e.k.ibcTransferKeeper = bank, vcAuth{}, &vcTransfer{bank: bank}
+	e.k.SetLastTransmissionBlockHeight(e.ctx, types.LastTransmissionBlockHeight{Height: e.ctx.BlockHeight()})
+	h := &VerifConsumerSetEnv{Ctx: e.ctx, K: &e.k, In: make([]bool, k), Power: make([]int64, k), NKeys: k}
+	for j := 0; j < k; j++ {
+		h.In[j] = vh.Bool(vh.Sprintf("set_in%d", j))
+		h.Power[j] = vh.Int64(vh.Sprintf("set_p%d", j))
+		vh.Assume(h.Power[j] >= 1)
+		if vh.Guard(h.In[j]) {
+			v, err := types.NewCCValidator(vcAddr(j), h.Power[j], vcSdkPubKey(j))
+			vh.Assert(err == nil, "C01.consumer.setup")
+			e.k.SetCCValidator(e.ctx, v)
+		}
+		vh.EndGuard()
+	}
+	if vh.ConcretizeInt(vh.Int("has_pending"), 0, 1) == 1 {
+		h.Pending = vcSymbolicUpdates("pend", k)
+		e.k.SetPendingChanges(e.ctx, ccv.ValidatorSetChangePacketData{ValidatorUpdates: h.Pending})
+	}
+	return h
+}
+
+func (h *VerifConsumerSetEnv) KeyId(pk tmprotocrypto.PublicKey) int { return vcKeyId(pk, h.NKeys) }
+func (h *VerifConsumerSetEnv) Addr(j int) []byte                   { return vcAddr(j) }
